@@ -100,8 +100,8 @@ def run(S):
     twopi = gb.cfg("lsn", dict(asym, psi_divide_twopi=True), label="lsn-asym-psi/2pi", **P)
     cfgs = [base, mirr, neg, twopi]
     if S.tier == "thorough":
-        dn = dict(orthogonal=True, ny_inner_lower_divertor=3, ny_outer_lower_divertor=5, psinorm_pf_lower=0.93, y_boundary_guards=1)
-        dn_m = dict(orthogonal=True, ny_inner_upper_divertor=3, ny_outer_upper_divertor=5, psinorm_pf_upper=0.93, y_boundary_guards=1)
+        dn = dict(orthogonal=True, ny_inner_lower_divertor=4, ny_outer_lower_divertor=6, psinorm_pf_lower=0.93, y_boundary_guards=1)
+        dn_m = dict(orthogonal=True, ny_inner_upper_divertor=4, ny_outer_upper_divertor=6, psinorm_pf_upper=0.93, y_boundary_guards=1)
         cfgs += [gb.cfg("udn", dn, label="udn-asym", **P), gb.cfg("udn", dn_m, label="udn-asym-mirrored(LDN)", mirror=True, **P)]
     res = gb.generate_many(cfgs)
     by = {c["label"]: r for c, r in zip(cfgs, res)}
